@@ -442,6 +442,54 @@ fn handle(line: &str) -> String {
             out.push(format!("root:{}", entry_str(verif::artifact_find(&art, verif::artifact_hash(&art, &state)))));
             out.join(" ")
         }
+        "searchlog" => {
+            // searchlog <seed> <depth> <workers> <tables> <buckets> <fen...>
+            // a REAL (multi-threaded) search with fresh memory, no cancellation, with the table-operation log on:
+            // the events as `search` prints them, then ` || ` and one token per logged table operation
+            // `ticket:id:i|f:key:kind,mv,depth,maxdepth,eval|-` in ticket order (for a find the payload is its result)
+            let seed: u64 = parts[1].parse().unwrap();
+            let depth = opt_usize(parts[2]);
+            let workers = opt_usize(parts[3]);
+            let tables: usize = parts[4].parse().unwrap();
+            let buckets: usize = parts[5].parse().unwrap();
+            let artifact = verif::artifact_new(seed, tables, buckets);
+            let Some(state) = parse_fen(&parts[6..].join(" ")) else {
+                return "badfen".into();
+            };
+            let mut out: Vec<String> = vec![];
+            verif::take_log();
+            verif::set_logging(true);
+            let r = catch_unwind(AssertUnwindSafe(|| {
+                verif::analyze_sync(state.clone(), seed, depth, Some(artifact), workers, None, &mut |e| match e {
+                    StatusEvent::BestMove { line, evaluation } => {
+                        let l: Vec<String> = line.iter().map(|m| m.as_raw().to_string()).collect();
+                        out.push(format!("best:{}:{}", i32::from(evaluation), l.join(",")));
+                    }
+                    StatusEvent::Progress { depth, nodes_searched, .. } => {
+                        out.push(format!("prog:{}:{}", depth, nodes_searched));
+                    }
+                    StatusEvent::Warning { .. } => out.push("warn".into()),
+                })
+            }));
+            verif::set_logging(false);
+            let log = verif::take_log();
+            let Ok(art) = r else {
+                return "panic".into();
+            };
+            let (n, mx) = verif::artifact_entries(&art);
+            out.push(format!("entries:{}/{}", n, mx));
+            out.push(format!("root:{}", entry_str(verif::artifact_find(&art, verif::artifact_hash(&art, &state)))));
+            let mut s = out.join(" ");
+            s.push_str(" ||");
+            for (ticket, id, ins, key, e) in log {
+                let payload = match e {
+                    None => "-".to_string(),
+                    Some((k, m, d, md, ev)) => format!("{},{},{},{},{}", k, m, d, md, ev),
+                };
+                s.push_str(&format!(" {}:{}:{}:{}:{}", ticket, id, if ins { "i" } else { "f" }, key, payload));
+            }
+            s
+        }
         "searchseq" => {
             // searchseq <seed> <tables> <buckets> <workers|-> <n> {<depth|-> <cancel|-> <fen with _>}*
             // n searches sharing one artifact (the memory of each is handed to the next)
